@@ -23,6 +23,9 @@ type c03Case struct {
 	// Reenter: the emulation is left and started again before the state is compared
 	PTY     bool `json:"pty,omitempty"`
 	Reenter bool `json:"reenter,omitempty"`
+	// Hole: the program image has a second block (two more words) that starts this many
+	// words behind the end of the first one: accesses can span image, hole and image
+	Hole int `json:"hole,omitempty"`
 }
 
 const (
@@ -70,6 +73,10 @@ func c03Run(c c03Case, monitor func(m *emu.Machine) *eng.Fail) (f *eng.Fail, ste
 		return c03PTY(c), c.Steps, ""
 	}
 	segs := c03Layout(c.Words)
+	if c.Hole > 0 {
+		end := segs[0].Base + uint64(4*len(segs[0].Words))
+		segs = append(segs, prog.Seg{Base: end + uint64(4*c.Hole), Words: []uint32{prog.Addi(3, 3, 0x7d1), prog.Addi(4, 4, 0x5d5)}})
+	}
 	for _, w := range c.Words {
 		c.Text = append(c.Text, prog.Dis(w))
 	}
@@ -143,7 +150,7 @@ func c03Enumerate(r *eng.Run, f func(c c03Case)) {
 func init() {
 	checks["C03"] = eng.Check{
 		Hist: true,
-		Rule: "every RV64IMA program of <=3 (thorough 4) instructions over a 36-word alphabet built to collide (three writers of x1, negative immediates, mul/div, sd/sw/sh/sb to overlapping offsets of one base, loads inside one store / across two stores / across a store and never-written memory / inside the image / across the image start, addw (32-bit register read) followed by a 64-bit reader, amoadd.w, lr.w, sc.w, sc.w/amoswap.w using ONE register as address and data, sd/sw/amoswap.w storing x0, add/ld/sd/jalr/amoadd.w whose destination is their own source or base register, beq forward, jal backward, jalr to a register, pseudo-jump jal +4, csrrw) followed by 4 nops, through the real pipeline (elf block store -> parser -> deps.NewCode -> emulator with Overlay(Bytes(image), Sparse)); run for <=8 steps from 4 initial states (small values; full 64-bit values with an indirect jump to a mid-instruction address; pre-loaded registers/memory with a jump outside the code; data area above 2^32) supplied by the state provider. After every step pc, every register the emulator knows, every written or supplied memory byte and the step report (register/memory reads and writes with values, as sets) are compared with the reference interpreter; Step must fail exactly when pc is not an instruction start. Plus 8 three-instruction programs whose middle instruction stores to / loads from the last bytes of the address space (ending exactly at 2^64, or wrapping around it). PROC conformance: 8 programs (store/load back, image read and store over the image, supplied memory partially overwritten, x0 stores, M and A instructions) emulated by the REAL BINARY under a pseudo-terminal (entry, e, one step per instruction, every state prompt answered from the initial state; also with the emulation left and started again): the register view and the memory view read off the screen must show the reference machine's registers and memory. states = program x initial state; transitions = steps executed. Non-trivial = run of >=3 steps.",
+		Rule: "every RV64IMA program of <=3 (thorough 4) instructions over a 36-word alphabet built to collide (three writers of x1, negative immediates, mul/div, sd/sw/sh/sb to overlapping offsets of one base, loads inside one store / across two stores / across a store and never-written memory / inside the image / across the image start, addw (32-bit register read) followed by a 64-bit reader, amoadd.w, lr.w, sc.w, sc.w/amoswap.w using ONE register as address and data, sd/sw/amoswap.w storing x0, add/ld/sd/jalr/amoadd.w whose destination is their own source or base register, beq forward, jal backward, jalr to a register, pseudo-jump jal +4, csrrw) followed by 4 nops, through the real pipeline (elf block store -> parser -> deps.NewCode -> emulator with Overlay(Bytes(image), Sparse)); run for <=8 steps from 4 initial states (small values; full 64-bit values with an indirect jump to a mid-instruction address; pre-loaded registers/memory with a jump outside the code; data area above 2^32) supplied by the state provider. After every step pc, every register the emulator knows, every written or supplied memory byte and the step report (register/memory reads and writes with values, as sets) are compared with the reference interpreter; Step must fail exactly when pc is not an instruction start. Plus 8 three-instruction programs whose middle instruction stores to / loads from the last bytes of the address space (ending exactly at 2^64, or wrapping around it). Plus 6 programs on an image of two blocks with a one-word hole between them (loads crossing image, unknown memory and image). PROC conformance: 8 programs (store/load back, image read and store over the image, supplied memory partially overwritten, x0 stores, M and A instructions) emulated by the REAL BINARY under a pseudo-terminal (entry, e, one step per instruction, every state prompt answered from the initial state; also with the emulation left and started again): the register view and the memory view read off the screen must show the reference machine's registers and memory. states = program x initial state; transitions = steps executed. Non-trivial = run of >=3 steps.",
 		Assumptions: []string{
 			"programs storing into their own image are skipped (property excludes self-modification)",
 			"the step report is compared as sets; a register read at several widths may be reported at any of them",
@@ -176,6 +183,23 @@ func init() {
 				prog.Sd(1, 0, -4), prog.Lw(7, 0, -2)} {
 				for _, in := range c03Inits[:2] {
 					c := c03Case{Words: []uint32{prog.Addi(1, 0, 5), w, prog.Addi(2, 1, 1)}, Init: in, Steps: 4, Entry: c03Base}
+					f, steps, _ := c03Run(c, nil)
+					r.Eval(1)
+					r.State(1)
+					r.Trace(1)
+					r.Trans(steps)
+					if f != nil {
+						r.Report(f)
+						r.Outcome(f.Sig)
+					}
+				}
+			}
+			// a program image of two blocks with a hole of one word between them: loads that start in
+			// the first block, cross the hole (unknown memory) and end in the second one, and stores there
+			// (3 program words + 4 nops: the first block is [0x1000,0x101c), the second starts at 0x1020)
+			for _, w := range []uint32{prog.Ld(7, 6, 0x1a), prog.Ld(7, 6, 0x1c), prog.Lw(7, 6, 0x1e), prog.Ld(7, 6, 0x18), prog.Lh(7, 6, 0x1f), prog.Sd(1, 6, 0x1a)} {
+				for _, in := range c03Inits[:2] {
+					c := c03Case{Words: []uint32{w, prog.Ld(8, 6, 0x1a), prog.Lw(9, 6, 0x1c)}, Init: in, Steps: 4, Entry: c03Base, Hole: 1}
 					f, steps, _ := c03Run(c, nil)
 					r.Eval(1)
 					r.State(1)
